@@ -30,6 +30,7 @@ TRUSTED = ["hashlib.sha1 over ndarray.tobytes(); numpy dtype.str/descr, shape, s
 ASSUMPTIONS = ["calls documented as in-place are white-listed explicitly: inplace=True, copy_fields' destination, "
                "copy_fields_by_name's target, quicksort*, combine_arrlist(keep=False)",
                "a call that raises for an unsupported layout is still judged (its arguments must be unchanged)"]
+THOROUGH_ROUNDS = 5      # the thorough tier runs the generator over this many derived seeds
 REQUIRED = {"quick": {"C15.snapshot": 25000}, "thorough": {"C15.snapshot": 250000}}
 WATCHDOG = {"quick": 900, "thorough": 7200}
 CASE_TIMEOUT = 300
